@@ -52,10 +52,10 @@ def gen_graph(rng, shape):
         n = int(rng.integers(2, 15))
         edges = tree(n)
     elif shape == "metal":
-        k = int(rng.integers(4, 9))
+        k = int(rng.integers(4, 14))          # up to 13 neighbours (12-coordinate nodes and beyond: no coordination limit in the enumeration)
         edges = [(0, i) for i in range(1, k + 1)]
         n = k + 1
-        extra = int(rng.integers(0, 14 - n + 1))
+        extra = int(rng.integers(0, max(1, 14 - n + 1)))
         for v in range(n, n + extra):
             edges.append((int(rng.integers(1, v)), v))
         n += extra
@@ -224,6 +224,8 @@ def run_case(case, ctx):
     a, (angles, dihedrals), err = run_pipeline(n, bonds, utypes, exclude, rules)
     st.count("graphs")
     st.seen("shape", case["shape"])
+    if max(len(v) for v in adj.values()) >= 9:
+        st.count("graphs_with_an_atom_of_nine_or_more_neighbours")
     # --- enumeration
     ra, rd = ref_angles(adj), ref_dihedrals(edges, adj)
     ga = sorted(canon(t) for t in angles)
@@ -418,6 +420,8 @@ def requirements(stats, tier):
         need.append("enumerations with shifted atom indices: %d" % stats.get("enumerations_with_shifted_indices"))
     if stats.get("graphs") < (350 if tier == "quick" else 250000):
         need.append("too few graphs: %d" % stats.get("graphs"))
+    if stats.get("graphs_with_an_atom_of_nine_or_more_neighbours") < (10 if tier == "quick" else 1000):
+        need.append("graphs with an atom of nine or more neighbours: %d" % stats.get("graphs_with_an_atom_of_nine_or_more_neighbours"))
     if stats.nseen("shape") < 5 or stats.nseen("type_source") < 3 or stats.nseen("exclude_class") < 3:
         need.append("not all graph / type / exclusion classes observed")
     if stats.get("graphs_with_rings") < 20 or stats.get("graphs_with_high_degree_node") < 20:
